@@ -46,6 +46,14 @@ func c18Cells(tier string) []Cell {
 		}
 	}
 
+	// Cleanup cycles that delete expired entries and evict: they have their own metric (cache_evict) and are no
+	// Delete calls.
+	for _, b := range backendKinds {
+		for strat := 0; strat < 3; strat++ {
+			cells = append(cells, Cell{ID: c18Cell{Mode: "backend-evict", Backend: b, First: strat}.id()})
+		}
+	}
+
 	// Backends under concurrency: DeleteAll / ExpireAll racing with single-key operations.
 	for _, b := range backendKinds {
 		for batch := 0; batch < 2; batch++ {
@@ -481,6 +489,95 @@ func exploreFBase(cfg FCfg, env *Env, opt vsched.Options, afterSetup func(h *fh)
 	return exploreF(cfg, env, opt, nil, check)
 }
 
+// c18BackendEvict: sizes 0..7 x count limit {2,4} x fraction {0.5,1} x {no expired entries, two long-expired ones},
+// one cleanup cycle: what the cycle removes shows up in cache_evict (evictions) and nowhere else.
+func c18BackendEvict(cc c18Cell, env *Env) CellResult {
+	res := CellResult{Exhaustive: true, Outcomes: map[string]int{}}
+	seen := map[string]bool{}
+	ctx := context.Background()
+
+	for n := 0; n <= 7; n++ {
+		for _, limit := range []uint64{2, 4} {
+			for _, frac := range []float64{0.5, 1} {
+				for _, expired := range []int{0, 2} {
+					vclock.Reset()
+
+					st := &recStats{m: map[string]float64{}}
+					cfg := cache.Config{Name: "c18e", ExpirationJitter: -1, TimeToLive: time.Hour, DeleteExpiredAfter: time.Minute,
+						CountSoftLimit: limit, EvictFraction: frac, EvictionStrategy: cache.EvictionStrategy(cc.First), Stats: st}
+					b := newBackend(cc.Backend, cfg)
+
+					for i := 0; i < n; i++ {
+						wctx := ctx
+						if i < expired {
+							wctx = cache.WithTTL(ctx, -time.Hour, false) // long expired: the cycle's delete-expired step takes it
+						}
+
+						_ = b.Write(wctx, []byte(fmt.Sprintf("ek-%d", i)), i)
+						vclock.Advance(time.Second)
+					}
+
+					for i := expired; i < n; i += 2 {
+						_, _ = b.Read(ctx, []byte(fmt.Sprintf("ek-%d", i)))
+					}
+
+					before := map[string]float64{}
+					for k, v := range st.m {
+						before[k] = v
+					}
+
+					lenBefore := b.Len()
+					b.Cleanup()
+					removed := lenBefore - b.Len()
+
+					nexp := expired
+					if nexp > n {
+						nexp = n
+					}
+
+					res.Execs++
+					res.States++
+					res.Transitions += n + 2
+
+					delta := func(metric string) float64 {
+						k := metric + "|name,c18e"
+						return st.m[k] - before[k]
+					}
+
+					bad := func(kind, detail string) {
+						sig := fmt.Sprintf("C18 %s cleanup-cycle %s", cc.Backend, kind)
+						if !seen[sig] {
+							seen[sig] = true
+							res.Violations = append(res.Violations, Violation{Signature: sig,
+								Detail: fmt.Sprintf("%s (%d entries of which %d long expired, CountSoftLimit %d, EvictFraction %v, strategy %s)", detail, n, nexp, limit, frac, strategyNames[cc.First])})
+						}
+					}
+
+					if d := delta(cache.MetricDelete); d != 0 {
+						bad("cache_delete", fmt.Sprintf("cache_delete grew by %v during a cleanup cycle: nothing was removed by Delete/DeleteAll", d))
+					}
+
+					if d := delta(cache.MetricEvict); int(d) != removed-nexp {
+						bad("cache_evict", fmt.Sprintf("cache_evict grew by %v, the cycle removed %d entries of which %d by the delete-expired step", d, removed, nexp))
+					}
+
+					for _, m := range []string{cache.MetricWrite, cache.MetricHit, cache.MetricMiss, cache.MetricExpired} {
+						if d := delta(m); d != 0 {
+							bad(m, fmt.Sprintf("%s grew by %v during a cleanup cycle", m, d))
+						}
+					}
+
+					res.Outcomes[fmt.Sprintf("cycle removed=%d expired=%d", removed, nexp)]++
+				}
+			}
+		}
+	}
+
+	res.Sample = map[string]interface{}{"backend": cc.Backend, "strategy": strategyNames[cc.First], "sizes": "0..7", "limits": []int{2, 4}, "fractions": []float64{0.5, 1}}
+
+	return res
+}
+
 func c18Run(c Cell, env *Env) CellResult {
 	var cc c18Cell
 	_ = json.Unmarshal([]byte(c.ID), &cc)
@@ -493,6 +590,10 @@ func c18Run(c Cell, env *Env) CellResult {
 		return c18BackendConc(cc, env)
 	}
 
+	if cc.Mode == "backend-evict" {
+		return c18BackendEvict(cc, env)
+	}
+
 	return c18Failover(*cc.F, env)
 }
 
@@ -502,6 +603,7 @@ func init() {
 		Cells: c18Cells, Run: c18Run,
 		Rule: "(backends) BFS over C07's operation alphabet with a recording StatsTracker: after EVERY transition hit/miss/expired/write/delete totals equal the counts derived from the reference model; " +
 			"(backends, concurrent) DeleteAll / ExpireAll next to Write(new key) / Delete / Read programs, all schedules: cache_delete equals the entries actually removed, cache_write the writes, read metrics the reads; " +
+			"(backends, cleanup) a cycle that deletes expired entries and evicts (sizes 0..7 x limit x fraction x strategy): cache_evict equals the evictions, cache_delete and the read/write metrics do not move; " +
 			"(Failover, lone Get) the whole decision table of C03 x 3 front-ends, all schedules; (Failover, concurrent) 2-3 Get threads on two keys incl. SkipRead, all schedules within the bound; " +
 			"at quiescence hit+miss+expired = non-skipped backend reads, cache_write = backend writes, cache_build / cache_failed = builder invocations / failures, cache_refreshed = stale re-stores, failure-cache writes = failures",
 		Assumptions: []string{
